@@ -106,11 +106,14 @@ impl Mode {
 pub const MODES: [Mode; 5] = [Mode::Clean, Mode::List, Mode::ListJson, Mode::ListAll, Mode::ListAllJson];
 pub const TZS: [Option<&str>; 4] = [Some("UTC"), Some("Asia/Tokyo"), Some("America/Los_Angeles"), None];
 
-struct Case {
-    text: String,
-    sp: Sp,
-    cfg: Cfg,
-    default_spelling: bool,
+pub struct Case {
+    pub text: String,
+    pub sp: Sp,
+    pub cfg: Cfg,
+    pub default_spelling: bool,
+    /// C04 leg: the reference evaluation finds nothing ready, so the result must be the input
+    /// itself (the library is not consulted)
+    pub passthrough: bool,
 }
 
 /// Render a target config file: one name per line; line ends LF or CRLF, with or without a
@@ -172,14 +175,18 @@ fn option_args(c: &Case, targets_via: usize, dir: &str, tag: &str, style: u64) -
     Ok(a)
 }
 
-fn judge_case(ctx: &mut Ctx, bin: &str, dir: &str, c: &Case, mode: Mode, variant: u64, gen_name: &str, valgrind: bool) {
+pub fn judge_case(ctx: &mut Ctx, bin: &str, dir: &str, c: &Case, mode: Mode, variant: u64, gen_name: &str, valgrind: bool) {
     let tag = format!("{}-{}", ctx.shard, ctx.evaluations);
     // library result for the corresponding configuration (same /repo sources, in-process)
-    let want = match api::call(mode.entry(), &c.text, &c.sp, &c.cfg) {
-        Ok((o, _)) => o,
-        Err(_) => {
-            ctx.skip("library panics on this input (C01 territory)");
-            return;
+    let want = if c.passthrough {
+        c.text.clone()
+    } else {
+        match api::call(mode.entry(), &c.text, &c.sp, &c.cfg) {
+            Ok((o, _)) => o,
+            Err(_) => {
+                ctx.skip("library panics on this input (C01 territory)");
+                return;
+            }
         }
     };
     let in_path = format!("{dir}/in-{tag}.src");
@@ -236,7 +243,7 @@ fn judge_case(ctx: &mut Ctx, bin: &str, dir: &str, c: &Case, mode: Mode, variant
     };
     ctx.eval();
     let rp = || {
-        json!({"kind": "cli", "text": c.text, "sp": c.sp.json(), "cfg": c.cfg.json(), "default_spelling": c.default_spelling,
+        json!({"kind": "cli", "text": c.text, "sp": c.sp.json(), "cfg": c.cfg.json(), "default_spelling": c.default_spelling, "passthrough": c.passthrough,
            "mode": format!("{mode:?}"), "variant": variant})
     };
     let o = match run_bin(bin, &inv) {
@@ -269,7 +276,8 @@ fn judge_case(ctx: &mut Ctx, bin: &str, dir: &str, c: &Case, mode: Mode, variant
         ctx.violation(
             gen_name,
             format!(
-                "binary result differs from the library result (mode {mode:?}, input {}, output {}, targets via {}, TZ {:?}): {:?} vs {:?}",
+                "binary result differs from {} (mode {mode:?}, input {}, output {}, targets via {}, TZ {:?}): {:?} vs {:?}",
+                if c.passthrough { "the input although nothing is ready" } else { "the library result" },
                 if input_via_stdin { "stdin" } else { "file" },
                 if result_file.is_none() { "stdout" } else { "file" },
                 ["flags", "file", "file+flags"][targets_via],
@@ -363,6 +371,7 @@ fn gen_case(seed: u64, i: u64) -> Case {
         sp,
         cfg,
         default_spelling,
+        passthrough: false,
     }
 }
 
@@ -403,6 +412,7 @@ pub fn run(ctx: &mut Ctx) {
             sp: Sp::new("<!-- <", "> -->", "time-limited", "removal-marker"),
             cfg: Cfg::new("2020-06-15T12:00:00+00:00", "+00:00", &[]),
             default_spelling: true,
+            passthrough: false,
         };
         for (k, mode) in MODES.iter().enumerate() {
             if k as u64 % n == shard {
@@ -437,6 +447,7 @@ pub fn replay(ctx: &mut Ctx, v: &Value) -> Result<(), String> {
         sp: Sp::from_json(v.get("sp").ok_or("no sp")?).ok_or("bad sp")?,
         cfg: Cfg::from_json(v.get("cfg").ok_or("no cfg")?).ok_or("bad cfg")?,
         default_spelling: v.get("default_spelling").and_then(|x| x.as_bool()).unwrap_or(false),
+        passthrough: v.get("passthrough").and_then(|x| x.as_bool()).unwrap_or(false),
     };
     let mode = match v.get("mode").and_then(|x| x.as_str()).unwrap_or("Clean") {
         "List" => Mode::List,
